@@ -55,14 +55,38 @@ theorem blob_bytes_exact {s : St} {t : Txn} (hn : s.txn = some t) (oid n base : 
 
 /-- … and from then on no step of any history changes those bytes: a step leaves every existing
     file exactly as it is, or removes it — and it removes it only by aborting the transaction that
-    created it, or by a pack after which no kept blob record names it. -/
+    created it, or by a pack after which no kept blob record names it.  Only exception: a file the
+    transaction in progress has itself put in place (dirty, not yet committed) may be replaced by a
+    further `undo` of that same transaction (`DB.undoMultiple`: the last undo's bytes win). -/
 theorem blob_bytes_never_change {s : St} (hr : Reach s) (o : Op) (ha : Admissible s o) (k : Key)
     (b : Bytes) (hkb : aget s.files k = some b) :
     aget (next s o).files k = some b ∨
     (aget (next s o).files k = none ∧
       ((o = .abort ∧ k ∈ s.dirty) ∨
-       (∃ T drop ko, o = .pack T drop ko ∧ ¬ BlobRecIn (next s o).hist k))) :=
+       (∃ T drop ko, o = .pack T drop ko ∧ ¬ BlobRecIn (next s o).hist k))) ∨
+    (k ∈ s.dirty ∧ ∃ utid, o = .undo utid) :=
   Proofs.Blob.file_fate (Proofs.Blob.reach_inv hr) o ha k b hkb
+
+/-- For the file of a COMMITTED blob revision there is no exception: its bytes stay until a pack
+    removes the revision. -/
+theorem committed_blob_bytes_stable {s : St} (hr : Reach s) (o : Op) (ha : Admissible s o) (k : Key)
+    (b : Bytes) (hkb : aget s.files k = some b) (hc : BlobRecIn s.hist k) :
+    aget (next s o).files k = some b ∨
+    (aget (next s o).files k = none ∧
+      ∃ T drop ko, o = .pack T drop ko ∧ ¬ BlobRecIn (next s o).hist k) := by
+  have hI := Proofs.Blob.reach_inv hr
+  have hnd : k ∉ s.dirty := by
+    intro hd
+    obtain ⟨t, ht, hk2⟩ := hI.dirtyTid k hd
+    obtain ⟨r, hrm, hkey, _⟩ := hc
+    have h1 := hI.fresh t ht r hrm
+    have h2 : k.2 = r.tid := by rw [← hkey]; rfl
+    omega
+  rcases Proofs.Blob.file_fate hI o ha k b hkb with h | ⟨hn, ⟨_, hd⟩ | hp⟩ | ⟨hd, _⟩
+  · exact Or.inl h
+  · exact absurd hd hnd
+  · exact Or.inr ⟨hn, hp⟩
+  · exact absurd hd hnd
 
 /-! ### abort / failed commit at every phase -/
 
@@ -220,6 +244,12 @@ example : aget (next (run (init .fs) exOps) (.pack 7 [(7, 5), (7, 6)] true)).fil
 -- abort after vote with a blob stored: nothing left
 example : (run (run (init .fs) exOps) [.mkTemp 3 [3], .begin 9, .storeBlob 7 3 8, .vote, .abort]).files
     = (run (init .fs) exOps).files := by decide
+-- multi-undo: two rewrites of one blob undone in ONE transaction: the file of the undo revision holds the
+-- bytes the LAST undo restores (the first undo's copy is renamed over)
+example : aget (run (init .fs) [.mkTemp 1 [0], .begin 5, .storeBlob 7 1 0, .vote, .finish,
+    .mkTemp 2 [1], .begin 6, .storeBlob 7 2 5, .vote, .finish,
+    .mkTemp 3 [2], .begin 7, .storeBlob 7 3 6, .vote, .finish,
+    .begin 9, .undo 7, .undo 6, .vote, .finish]).files (7, 9) = some [0] := by decide
 -- un-creation: undoing the creating transaction leaves no file for the undo tid
 example : aget (run (init .fs) [.mkTemp 1 [1], .begin 5, .storeBlob 7 1 0, .vote, .finish,
     .begin 6, .undo 5, .vote, .finish]).files (7, 6) = none := by decide
